@@ -1,5 +1,6 @@
 (* Command dispatch (server.Manager.ExecCommand / memdb.CmdTable) over the keyspace model. *)
 Require Import Base.Bytes Base.GoInt Base.Reply Mem.Types Mem.Strings Mem.Lists.
+Require Import Mem.Sets.
 Local Open Scope Z_scope.
 
 (* A command family: given the (already purged) database, the clock in s and ms, the
@@ -54,7 +55,7 @@ Definition lists_dispatch : family := fun d now nowms n args hint =>
   else if is n (B "brpop") then Some (exec_bpop false d nowms args)
   else None.
 
-Definition families : list family := [strings_dispatch; lists_dispatch].
+Definition families : list family := [strings_dispatch; lists_dispatch; sets_dispatch].
 
 Fixpoint dispatch (fs : list family) (d : db) (now nowms : Z) (n : bytes) (args : list bytes)
          (hint : reply) : reply * db :=
